@@ -8,14 +8,16 @@ from harness import core, up2v
 ID = 'C28'
 TITLE = 'Upserts follow their specification'
 PROPS = ['Props/C28']
-RULE = ('each case: a fresh table T(A Text, B Int, C Text, D Int, F formula, E empty column) with 0-6 rows (duplicate and missing keys, '
+RULE = ('each case: a fresh table T(A Text, B Int, C Text, D Int, N Numeric, K Bool, G Any, L ChoiceList, F formula, E empty column) with 0-6 rows (duplicate and missing keys, '
         'gaps in row ids) and one BulkAddOrUpdateRecord/AddOrUpdateRecord call through apply_user_actions: 0-3 require '
         'columns out of A,B,C,F,id (rarely an unknown one), 0-2 value columns (rarely a formula/unknown/id column), 0-4 '
         'input rows, mistyped values ("1" for an Int column etc.), explicit row ids (existing, fresh, 0, negative, '
         'too high, repeated), every options combination, plus dedicated streams for empty require with/without '
         'allow_empty_require, several input rows hitting the same record, mismatched lengths, duplicate keys, an EMPTY '
         'column (isFormula=True, formula="") named in require and/or col_values, and repeated upserts (the same call '
-        'made a second time must update, not add); thorough '
+        'made a second time must update, not add), require keys that are ONE value spelled with different number/bool '
+        'types (1, 1.0, True / 0, 0.0, False / 2, 2.0 on Int/Numeric/Bool/Any key columns, "a" vs "a" as control): '
+        'duplicates by Python value equality must be rejected; a require keyed on a ChoiceList column (oracle only); thorough '
         'adds an exhaustive small scope. A case is non-trivial when a record was added or updated or an argument '
         'error was raised')
 TRUSTED = ['harness/up2v.py translates BulkAddOrUpdateRecord/AddOrUpdateRecord (useractions.py) to Gallina on every run '
@@ -29,7 +31,8 @@ TRUSTED = ['harness/up2v.py translates BulkAddOrUpdateRecord/AddOrUpdateRecord (
            'column.convert / the lookup-key conversion are an uninterpreted function of the model (theorems hold for '
            'every such function); the harness tabulates it from the running engine for the values of each case',
            'formula columns are recomputed by the engine, not by the action: their cells are not compared after the call']
-ASSUMPTIONS = ['values are None, ints and strings; columns are data columns of type Text/Int, real formula columns, '
+ASSUMPTIONS = ['values are None, ints, strings, and bools / integral floats identified with the equal int (Python value equality; a '
+               'case is skipped when a column stores two such spellings differently, e.g. Text);  columns are data columns of type Text/Int, real formula columns, '
                'and one empty column (isFormula=True, formula="") that only receives non-blank non-numeric strings '
                '(its type is then guessed as Text) and whose untouched cells are compared modulo None = ""; no '
                'reference/position columns, no trigger formulas; tables are user tables']
@@ -50,13 +53,15 @@ LEVEL_NOTE = ('Trusted: Coq kernel, the hand-written model (validated differenti
 logging.disable(logging.CRITICAL)
 
 # column ids of the model
-COLS = {'id': 0, 'A': 1, 'B': 2, 'C': 3, 'D': 4, 'F': 5, 'E': 6, 'Z': 9}
-BASE = ['A', 'B', 'C', 'D']          # Text/Int data columns
-DATA = BASE + ['E']                  # + E: an EMPTY column (isFormula=True, formula='') until it is first written
-DEFAULTS = {'A': '', 'B': 0, 'C': '', 'D': 0, 'E': ''}
+COLS = {'id': 0, 'A': 1, 'B': 2, 'C': 3, 'D': 4, 'F': 5, 'E': 6, 'N': 7, 'K': 8, 'Z': 9, 'G': 10}
+BASE = ['A', 'B', 'C', 'D', 'N', 'K', 'G']   # Text/Int/Numeric/Bool/Any data columns (L: a ChoiceList column, oracle only)
+DATA = ['A', 'B', 'C', 'D', 'E', 'N', 'K', 'G']   # in schema order; E: an EMPTY column (isFormula=True, formula='') until first written
+DEFAULTS = {'A': '', 'B': 0, 'C': '', 'D': 0, 'E': '', 'N': 0.0, 'K': False, 'G': None}
 SCHEMA_COQ = ('[{| c_id := 1; c_data := true; c_default := VText [] |}; {| c_id := 2; c_data := true; c_default := VInt 0 |}; '
               '{| c_id := 3; c_data := true; c_default := VText [] |}; {| c_id := 4; c_data := true; c_default := VInt 0 |}; '
-              '{| c_id := 5; c_data := false; c_default := VNone |}; {| c_id := 6; c_data := true; c_default := VText [] |}]')
+              '{| c_id := 5; c_data := false; c_default := VNone |}; {| c_id := 6; c_data := true; c_default := VText [] |}; '
+              '{| c_id := 7; c_data := true; c_default := VInt 0 |}; {| c_id := 8; c_data := true; c_default := VInt 0 |}; '
+              '{| c_id := 10; c_data := true; c_default := VNone |}]')
 ON_MANY = {'first': 'OnFirst', 'none': 'OnNone', 'all': 'OnAll'}
 
 
@@ -96,6 +101,8 @@ def fresh_engine():
   e.apply_user_actions([ua('AddTable', 'T', [
     {'id': 'A', 'type': 'Text', 'isFormula': False}, {'id': 'B', 'type': 'Int', 'isFormula': False},
     {'id': 'C', 'type': 'Text', 'isFormula': False}, {'id': 'D', 'type': 'Int', 'isFormula': False},
+    {'id': 'N', 'type': 'Numeric', 'isFormula': False}, {'id': 'K', 'type': 'Bool', 'isFormula': False},
+    {'id': 'G', 'type': 'Any', 'isFormula': False}, {'id': 'L', 'type': 'ChoiceList', 'isFormula': False},
     {'id': 'F', 'type': 'Any', 'isFormula': True, 'formula': '$A.upper() if $A else ""'}])])
   e.apply_user_actions([ua('AddColumn', 'T', 'E', {})])        # an empty column: isFormula=True, formula=''
   return e
@@ -129,13 +136,25 @@ def tabulate(e, case):
         k = (c, rep_key(v))
         stored = col.convert(v)
         rich = col._convert_raw_value(stored)
+        if k in conv and not same(conv[k][2], stored):
+          # two spellings of one value (1, 1.0, True) that this column stores differently (Text: '1', '1.0', 'True')
+          raise Unrepresentable('%s stores %r and %r differently' % (c, conv[k][1], v))
         conv[k] = (c, v, stored)
         # a wrong-type value is looked up as AltText(text), which equals the AltText of a stored cell with that text
         key[k] = (c, v, ('some', str(rich)) if isinstance(rich, usertypes.AltText) else ('some', rich))
   return list(conv.values()), list(key.values())
 
 
+def is_num(v):
+  return isinstance(v, (int, float)) and not (isinstance(v, float) and v != v)
+
+
 def rep_key(v):
+  """Python value equality, the notion lookup_records and the uniqueness check use: 1 == 1.0 == True."""
+  if is_num(v):
+    return ('num', v)
+  if isinstance(v, list):
+    return ('list', tuple(rep_key(x) for x in v))
   return (type(v).__name__, v)
 
 
@@ -182,7 +201,7 @@ def run_impl(case):
   e = get_engine(case)
   rows = case['rows']
   if rows:
-    cols = {c: [r[c] for r in rows] for c in BASE}
+    cols = {c: [r.get(c, DEFAULTS[c]) for r in rows] for c in BASE}
     if any(r.get('E') for r in rows):       # E already holds data before the call
       cols['E'] = [r.get('E') or '' for r in rows]
     e.apply_user_actions([ua('BulkAddRecord', 'T', [r['id'] for r in rows], cols)])
@@ -238,10 +257,12 @@ def classify_exc(ex):
 def vlit(v):
   if v is None:
     return 'VNone'
-  if isinstance(v, bool) or not isinstance(v, (int, str)):
+  if isinstance(v, float) and v == int(v) and abs(v) < 2 ** 52:
+    v = int(v)                 # 1, 1.0 and True are one value (Python equality): the model's VInt 1
+  if not isinstance(v, (int, str)):
     raise Unrepresentable(repr(v))
   if isinstance(v, int):
-    return '(VInt %s)' % core.zlit(v)
+    return '(VInt %s)' % core.zlit(int(v))
   return '(VText %s)' % core.strlit(v)
 
 
@@ -268,6 +289,8 @@ def idlists(l):
 
 
 def coq_case(case, pre, convtab, keytab, outcome, post):
+  if case.get('choicelist'):
+    raise Unrepresentable('list-valued require key')
   conv = core.coq_list(['(%s, %s, %s)' % (core.zlit(COLS[c]), vlit(v), vlit(s)) for c, v, s in convtab])
   key = core.coq_list(['(%s, %s, %s)' % (core.zlit(COLS[c]), vlit(v), 'None' if k is None else '(Some %s)' % vlit(k[1]))
                        for c, v, k in keytab])
@@ -292,7 +315,7 @@ def coq_case(case, pre, convtab, keytab, outcome, post):
 
 EXTRA_DEFS = '''
 Definition the_schema := %s.
-Definition keep := [1; 2; 3; 4; 6].
+Definition keep := [1; 2; 3; 4; 6; 7; 8; 10].
 Definition expb := (table * (list (list Z) * list Z * list (list Z)) + error)%%type.
 Definition exps := (table * (list Z * action) + error)%%type.
 Definition okb (t : table) (r : list (list Z) * list Z * list (list Z)) : expb := inl (t, r).
@@ -333,9 +356,17 @@ POOL_REQ = {
   'C': ['c0', 'c1', 'n'],
   'F': ['A', 'B', 'Z', 'a'],
   'E': ['k', 'k', 'm', 'v'],          # non-blank, non-numeric strings (the column type is then guessed as Text)
+  'D': [0, 5, 5.0, 0.0, False, 1, True],
+  'N': [1, 1.0, True, 2, 2.0, 0, False, 3],
+  'K': [1, True, 1.0, 0, False, 0.0, 2],
+  'G': [1, 1.0, True, 2, 2.0, 'g', None],
   'Z': ['a', 1],
 }
+SPELLINGS = {0: [0, 0.0, False], 1: [1, 1.0, True], 2: [2, 2.0]}
 POOL_VAL = {
+  'N': [1, 2.0, 5, True],
+  'K': [True, 0, 1.0],
+  'G': ['h', 3, 2.0],
   'A': ['a', 'b', 'q', 7],
   'B': [1, 2, 5, '3', 'xx', None],
   'C': ['c0', 'c0', 'c1', 'n1', 'n2', 8, None],
@@ -356,6 +387,7 @@ def gen_rows(rng):
   e_data = rng.random() < 0.3          # E already holds data (a Text column by then); else it is still an empty column
   return [{'id': i, 'A': rng.choice(['a', 'a', 'b', 'c']), 'B': rng.choice([1, 2]),
            'C': rng.choice(['c0', 'c0', 'c1']), 'D': rng.choice([0, 5]),
+           'N': rng.choice([0.0, 1.0, 1.0, 2.0]), 'K': rng.choice([True, False]), 'G': rng.choice([None, 1, 1.0, 2, 'g']),
            'E': rng.choice(['k', 'k', 'm', '']) if e_data else None} for i in ids]
 
 
@@ -387,6 +419,7 @@ def id_pool(rng, rows):
 def gen_case(rng):
   rows = gen_rows(rng)
   stream = rng.random()
+  spell = False
   bulk = rng.random() < 0.8
   m = rng.choice([0, 1, 1, 2, 2, 3, 4]) if bulk else 1
   if stream < 0.12:                       # empty require
@@ -405,9 +438,23 @@ def gen_case(rng):
     if rng.random() < 0.3:
       reqkeys, valkeys = rng.sample(['A', 'B'], 1), ['E'] + rng.sample(['C', 'D'], rng.choice([0, 1]))
     opts = gen_options(rng)
+  elif stream < 0.52:                     # keys that are one VALUE spelled with different number/bool types
+    spell = True
+    bulk = bulk or rng.random() < 0.7
+    m = rng.choice([2, 2, 3]) if bulk else 1
+    numcols = rng.sample(['N', 'K', 'G', 'B', 'D'], rng.choice([1, 1, 2]))
+    reqkeys = numcols + (['A'] if rng.random() < 0.3 else [])
+    valkeys = rng.sample(['C', 'D', 'A', 'N'], rng.choice([0, 1, 1, 2]))
+    opts = gen_options(rng)
+  elif stream < 0.55:                     # a require keyed on a ChoiceList column (list values): oracle only
+    m = rng.choice([1, 2]) if bulk else 1
+    lists = [['L', 'a', 'b'], ['L', 'c']][:m]
+    vals = [rng.choice(POOL_VAL['C']) for _ in range(m)]
+    return {'rows': rows, 'bulk': bulk, 'require': {'L': lists if bulk else lists[0]},
+            'col_values': {'C': vals if bulk else vals[0]}, 'options': {}, 'choicelist': True}
   else:
-    reqkeys = rng.sample(['A', 'B', 'F', 'id', 'C', 'E'] + (['Z'] if rng.random() < 0.05 else []), rng.choice([0, 1, 1, 1, 2, 2, 3]))
-    valkeys = rng.sample(['C', 'D', 'A', 'B', 'E'] + (rng.sample(['F', 'Z', 'id'], 1) if rng.random() < 0.07 else []),
+    reqkeys = rng.sample(['A', 'B', 'F', 'id', 'C', 'E', 'N', 'K', 'G'] + (['Z'] if rng.random() < 0.05 else []), rng.choice([0, 1, 1, 1, 2, 2, 3]))
+    valkeys = rng.sample(['C', 'D', 'A', 'B', 'E', 'N', 'K', 'G'] + (rng.sample(['F', 'Z', 'id'], 1) if rng.random() < 0.07 else []),
                          rng.choice([0, 1, 1, 2]))
     opts = gen_options(rng)
   ids = id_pool(rng, rows)
@@ -420,8 +467,21 @@ def gen_case(rng):
     require['B'] = alts
     if 'A' in require:
       require['A'] = [require['A'][0]] * m
+  if spell and m >= 2:
+    if rng.random() < 0.75:               # row 1 repeats the key of row 0, mostly in another spelling
+      for c in reqkeys:
+        if c == 'A':
+          require[c][0] = require[c][1] = rng.choice(['a', 'two'])
+        else:
+          sp = SPELLINGS[rng.choice([0, 1, 1, 2])]
+          require[c][0], require[c][1] = rng.choice(sp), rng.choice(sp)
+    else:                                 # different values, mixed spellings
+      for c in reqkeys:
+        if c != 'A':
+          ns = rng.sample([0, 1, 2], 2)
+          require[c][0], require[c][1] = rng.choice(SPELLINGS[ns[0]]), rng.choice(SPELLINGS[ns[1]])
   # mostly unique keys
-  if reqkeys and rng.random() < 0.85:
+  if reqkeys and not spell and rng.random() < 0.85:
     seen, keep = set(), []
     for i in range(m):
       k = tuple(rep_key(require[c][i]) for c in reqkeys)
@@ -491,6 +551,15 @@ REGRESSION = [
    'prior': [{'bulk': False, 'require': {'E': 'k'}, 'col_values': {'C': 'x'}, 'options': {}}]},
   {'rows': [], 'bulk': True, 'require': {'E': ['k', 'm']}, 'col_values': {'D': [5, 6]}, 'options': {},
    'prior': [{'bulk': True, 'require': {'E': ['k', 'm']}, 'col_values': {'D': [5, 6]}, 'options': {}}]},
+  # require rows that are one key spelled with different number/bool types must be rejected as duplicates
+  {'rows': [], 'bulk': True, 'require': {'K': [1, 1.0]}, 'col_values': {'C': ['x', 'y']}, 'options': {}},
+  {'rows': [{'id': 1, 'A': 'a', 'B': 1, 'C': 'c0', 'D': 0, 'N': 1.0}], 'bulk': True, 'require': {'N': [1, True]},
+   'col_values': {'C': ['x', 'y']}, 'options': {}},
+  {'rows': [], 'bulk': True, 'require': {'A': ['two', 'two'], 'B': [2, 2.0]}, 'col_values': {}, 'options': {}},
+  {'rows': [], 'bulk': True, 'require': {'G': [0, False, 0.0]}, 'col_values': {'D': [1, 2, 3]}, 'options': {}},
+  # a require keyed on a ChoiceList column (known finding: TypeError unhashable list)
+  {'rows': [], 'bulk': True, 'require': {'L': [['L', 'a', 'b']]}, 'col_values': {'C': ['x']}, 'options': {},
+   'choicelist': True},
 ]
 
 
@@ -508,6 +577,8 @@ def cases(ctx):
 # the property's own oracle (independent Python reference, per input row, on the pre-call table)
 
 def same(a, b):
+  if is_num(a) and is_num(b):
+    return a == b
   return type(a) is type(b) and a == b
 
 
@@ -537,7 +608,7 @@ def reference(case, pre, convtab, keytab):
   keys = [tuple(rep_key(require[c][i]) for c in require) for i in range(n)]
   if require and len(set(keys)) < n:
     return ('err', 'EUnique', 'duplicate keys')
-  if any(c not in ('id', 'A', 'B', 'C', 'D', 'E', 'F') for c in require):
+  if any(c not in ['id', 'F'] + DATA for c in require):
     return ('err', 'EEnv', 'unknown require column')
   # what each input row asks for, on the pre-call table
   asks = []
@@ -652,6 +723,12 @@ def repeated_adds_again(case, outcome):
 
 def judge(case, pre, convtab, keytab, outcome, post):
   """None when the implementation follows the reference, else (kind, description)."""
+  if case.get('choicelist'):
+    # the rows of `require` are distinct lists of choices: nothing in the documentation rejects them
+    if outcome[0] == 'err' and 'unhashable' in outcome[3]:
+      return ('unhashable-require-key', 'require names a ChoiceList column (list values): the uniqueness check builds a set '
+              'of the decoded rows and raises %s; the reference looks the records up and adds/updates' % outcome[3])
+    return None
   v = repeated_adds_again(case, outcome)
   if v:
     return v
@@ -718,7 +795,10 @@ def correspond(ctx):
   done = []
   bulk, single = [], []
   global REUSE_ENGINE
+  oracle_only = []
+  ctx._c28_oracle_only = oracle_only
   for n, case in enumerate(cs):
+    r = None
     try:
       r = run_impl(case)
       if n % 20 == 0:        # monitor: reusing the engine between cases does not change what the engine does
@@ -732,7 +812,11 @@ def correspond(ctx):
           ctx.broken('harness:engine reuse changes the outcome', 'case %r reused %r fresh %r' % (public(case), r[3:], r2[3:]))
       term = coq_case(case, *r)
     except Unrepresentable:
-      ctx.bump('skipped:unrepresentable value')
+      if r is not None:      # the model has no such values (lists): judged by the oracle only
+        oracle_only.append((case, r))
+        ctx.count(case_key(case), nontrivial=True, kind='oracle only:list-valued require key')
+      else:
+        ctx.bump('skipped:unrepresentable value')
       continue
     done.append((case, r))
     (bulk if case['bulk'] else single).append((len(done) - 1, term))
@@ -791,7 +875,7 @@ def case_key(case):
 
 
 def public(case):
-  return copy.deepcopy({k: case[k] for k in ('rows', 'bulk', 'require', 'col_values', 'options', 'prior') if k in case})
+  return copy.deepcopy({k: case[k] for k in ('rows', 'bulk', 'require', 'col_values', 'options', 'prior', 'choicelist') if k in case})
 
 
 def search(ctx):
@@ -804,7 +888,7 @@ def search(ctx):
         done.append((case, run_impl(case)))
       except Unrepresentable:
         pass
-  for case, r in done:
+  for case, r in list(done) + list(getattr(ctx, '_c28_oracle_only', [])):
     try:
       v = judge(case, *r)
     except Unrepresentable:
